@@ -39,7 +39,11 @@ def _get_uses_of(node: ast.AST, scope: ast.AST, source: str) -> Iterable[ast.Nam
     if all(usage is node for usage in core.walk(scope, ast.Name(id=name))):
         return
 
-    is_maybe_unordered_scope = isinstance(scope, (ast.Module, ast.ClassDef, ast.While, ast.For))
+    # A variable is the same variable before and after the assignment, also in a function
+    is_maybe_unordered_scope = isinstance(
+        scope,
+        (ast.Module, ast.ClassDef, ast.While, ast.For, ast.FunctionDef, ast.AsyncFunctionDef),
+    )
 
     # Prevent renaming variables in function scopes
     blacklisted_names = set()
